@@ -374,9 +374,18 @@ func (e *Exec) Run() (v *Violation) {
 		setPointHook(e.onPoint)
 		defer setPointHook(nil)
 	}
+	hugeKeys := false
+	for i := range e.tr.Steps {
+		if len(e.tr.Steps[i].K) > 32<<10 {
+			hugeKeys = true
+		}
+	}
 	for i := range e.tr.Steps {
 		s := &e.tr.Steps[i]
 		e.st.Steps++
+		if hugeKeys && i%4 == 3 {
+			runtime.GC() // automatic collection is off; runs with 64 KiB keys would otherwise pile up gigabytes
+		}
 		if s.T < 0 {
 			if s.Op == "scribble" {
 				if v := e.scribbleAll(i); v != nil {
@@ -518,7 +527,9 @@ func (e *Exec) precondition(ts *treeState, s *Step) string {
 			return "prefix-unsupported-kind"
 		}
 		if kt.Kind == "collation" && !e.collPrefixOK(ts, s.K) {
-			return "collation-prefix-contraction-or-ignorable"
+			// outside C04's domain: the call is still made (caller memory, re-iteration
+			// and "changes nothing" apply to it), its content is not compared
+			return "nocheck:collation-prefix-contraction-or-ignorable"
 		}
 	}
 	return ""
